@@ -1050,6 +1050,9 @@ func main() {
 	r.Cases("lookback", r.N(40000, 1280000), hv, lookbackCase)
 	r.Cases("chains", r.N(30000, 896000), hv, chainCase)
 	r.Cases("nested", r.N(30000, 896000), hv, nestedCase)
+	r.Cases("periodic", r.N(160, 4000), hv, periodicCase)
+	r.Require("periodic_cases", 120)
+	r.Require("periodic_depth_multiple_of_256", 30)
 
 	// histories and sizes (strength.go)
 	r.Cases("staged", r.N(20000, 600000), hv, stagedCase)
